@@ -387,7 +387,7 @@ func reqTimeout() time.Duration {
 			return time.Duration(n) * time.Millisecond
 		}
 	}
-	return 40 * time.Second
+	return 120 * time.Second
 }
 
 func classifyErr(err error, runaway bool) string {
